@@ -68,6 +68,9 @@ def run(ctx, report):
         results = run_worker(ctx, [c["real"] for c in keep], scratch=san, env=env, tag="c12k", timeout=3000)
         for c, r in zip(keep, results):
             p, kernel = c["params"], c["kernel"]
+            if r.get("crash") == -999:
+                report.count("not-executed")
+                continue
             crashed = "crash" in r
             kinds = classify(r.get("stderr", "") if crashed else r.get("stderr_seg", ""))
             if crashed and not kinds:
@@ -75,16 +78,26 @@ def run(ctx, report):
             # signed left shift (negative value / into the sign bit) is defined as wrap-around by gcc and clang,
             # which is what the models assume: counted, reported once as a known finding, not part of the verdict
             soft = {k for k in kinds if k == "ubsan:shift-base"}
+            # the delta decoder's running sum `value += min_delta + temp` is modular arithmetic by specification; in C it is a
+            # signed 64-bit addition (wraps under gcc/clang, which the model assumes): reported as its own finding, not in the verdict
+            text = (r.get("stderr") or r.get("stderr_seg") or "")
+            wrap_add = kernel == "delta" and "ubsan:signed-overflow" in kinds and " + " in text and "cannot be represented in type 'long'" in text
+            if wrap_add:
+                soft = soft | {"ubsan:signed-overflow"}
             hard = kinds - soft
             rec = {"kernel": kernel, **p, "model_fault": c["model_fault"]}
             report.case((kernel, tuple(sorted(p.items()))), c["nontrivial"],
                         sample={"kernel": kernel, **p, "sanitizer": sorted(kinds)} if len(report.samples) < 4 and c["nontrivial"] else None)
             report.count("kernel:" + kernel)
             report.stream("kern.fault")
-            if soft:
+            if "ubsan:shift-base" in soft:
                 report.count("signed-left-shift:" + kernel)
                 report.violation({**rec, "what": f"{kernel}: signed left shift of a negative value or into the sign bit", "sanitizer": "ubsan:shift-base",
                                   "sig": f"{kernel}:shift-base"})
+            if wrap_add:
+                report.count("signed-add-wrap:" + kernel)
+                report.violation({**rec, "what": "delta: the running sum overflows a signed 64-bit integer", "sanitizer": "ubsan:signed-overflow",
+                                  "stderr": text[-300:], "sig": "delta:signed-add"})
             if hard:
                 report.violation({**rec, "what": f"{kernel}: {sorted(hard)} on a well-formed input",
                                   "sanitizer": "+".join(sorted(hard)), "stderr": ((r.get("stderr") or r.get("stderr_seg") or ""))[-300:],
@@ -111,6 +124,9 @@ def run(ctx, report):
                 head, dd = parse_reply(rm)
                 if head == "ok":
                     overflow = (len(dd["out"]) - 1) // 2 > int(dd["size"])
+            if r.get("crash") == -999:
+                report.count("not-executed")
+                continue
             crashed = "crash" in r
             kinds = classify(r.get("stderr", "") if crashed else r.get("stderr_seg", ""))
             if crashed and not kinds:
